@@ -33,3 +33,35 @@ Theorem C03_spec_absolute_moves_ignore_history : forall es p1 p2 q,
   aspec es p1 (OEq q) = aspec es p2 (OEq q).
 Proof. intros; repeat split; reflexivity. Qed.
 Print Assumptions C03_spec_absolute_moves_ignore_history.
+
+(* ---- the in-block cursor on a well-formed block: byte offsets are in bijection with entry indices
+   (start es p) and every relative move is the index move; at the ends it returns None without moving
+   (what the multi-level cursor relies on) ---- *)
+From Grenad.proofs Require Import BlockProofs BlockCursorProofs.
+
+Theorem C03_block_next : forall b es ridx p, wfblock b es ridx -> (p < length es)%nat ->
+  bc_next (mk_bcur b (Some (start es p))) = Done (mk_bcur b (Some (start es (S p))), nth_error es (S p)).
+Proof. intros b es ridx p W. exact (bc_next_spec b es ridx W p). Qed.
+Print Assumptions C03_block_next.
+
+Theorem C03_block_prev : forall b es ridx i, wfblock b es ridx -> (0 < i)%nat -> (i < length es)%nat ->
+  bc_prev (mk_bcur b (Some (start es i))) = Done (mk_bcur b (Some (start es (i - 1))), nth_error es (i - 1)).
+Proof. intros b es ridx i W. exact (bc_prev_spec b es ridx W i). Qed.
+Print Assumptions C03_block_prev.
+
+Theorem C03_block_first_last : forall b es ridx o, wfblock b es ridx ->
+  bc_first (mk_bcur b o) = Done (mk_bcur b (Some (start es 0)), nth_error es 0) /\
+  ((0 < length es)%nat ->
+   bc_last (mk_bcur b o) = Done (mk_bcur b (Some (start es (length es - 1))), nth_error es (length es - 1))).
+Proof. intros b es ridx o W. split; [exact (bc_first_spec b es ridx W o) | exact (bc_last_spec b es ridx W o)]. Qed.
+Print Assumptions C03_block_first_last.
+
+Theorem C03_block_ends_do_not_move : forall b es ridx, wfblock b es ridx ->
+  bc_prev (mk_bcur b (Some (start es 0))) = Done (mk_bcur b (Some (start es 0)), None) /\
+  bc_next (mk_bcur b (Some (start es (length es)))) = Done (mk_bcur b (Some (start es (length es))), None) /\
+  ((0 < length es)%nat ->
+   bc_prev (mk_bcur b (Some (start es (length es)))) = Done (mk_bcur b (Some (start es (length es))), None)).
+Proof.
+  intros b es ridx W. split; [exact (bc_prev_first b es ridx W)|]. split; [exact (bc_next_end b es ridx W)|exact (bc_prev_end b es ridx W)].
+Qed.
+Print Assumptions C03_block_ends_do_not_move.
